@@ -257,7 +257,7 @@ def build_rt(cfgname):
 
 def run_model(trace_path):
     with open(trace_path) as fh:
-        p = subprocess.run([MODEL_BIN, "rt"], stdin=fh, stdout=subprocess.PIPE, stderr=subprocess.PIPE, text=True)
+        p = subprocess.run([MODEL_BIN, "rt"], stdin=fh, stdout=subprocess.PIPE, stderr=subprocess.PIPE, text=True, errors="replace")
     mism, invf, summary = [], [], None
     for line in p.stdout.splitlines():
         if line.startswith("MISMATCH"):
@@ -268,6 +268,37 @@ def run_model(trace_path):
             summary = dict(kv.split("=", 1) for kv in line.split()[1:] if "=" in kv)
     return {"mismatches": mism, "invfails": invf, "summary": summary, "rc": p.returncode,
             "stderr": p.stderr[-500:]}
+
+
+def invfail_hits(trace_path, invfails):
+    """The representation invariant evaluated on the IMPLEMENTATION's dumped state is false: when
+    that happens after a panic was caught in the same sequence it is a concrete C10 failure (the
+    panic left the world inconsistent), independent of the L1 model."""
+    if not invfails:
+        return []
+    lines = open(trace_path, errors="replace").read().splitlines()
+    hits = []
+    for inv in invfails:
+        m = re.match(r"INVFAIL seq=(\S+) line=(\d+) op=(.*?) impl=", inv)
+        if not m:
+            continue
+        ln = int(m.group(2))
+        # walk back to the sequence header, looking for a caught panic
+        j = ln - 2
+        panic_line = None
+        header = None
+        while j >= 0:
+            l = lines[j]
+            if l.startswith("seq "):
+                header = l
+                break
+            if " => panic" in l or "end=panic" in l:
+                panic_line = panic_line or l
+            j -= 1
+        if panic_line and header:
+            hits.append({"property": "C10", "seq": header, "line": ln, "op": m.group(3), "class": "inv-after-panic",
+                         "what": f"after the caught panic `{panic_line[:120]}` the storage dumped from the implementation violates the representation invariant (an entity is neither fully present nor fully absent)"})
+    return hits
 
 
 def run_stream(cfgname, profile, seed, nseq, maxops):
@@ -296,11 +327,63 @@ def run_stream(cfgname, profile, seed, nseq, maxops):
             res["crashed"] = f"harness exited with {p.returncode}: {p.stderr[-300:]}"
         m = run_model(tf)
         res.update(m)
+        if m["summary"] is None and not res.get("crashed"):
+            res["crashed"] = f"model driver did not finish replaying the trace (rc={m['rc']}): {m['stderr'][-200:]}"
         hits, stats = oracles.run_oracles(tf)
-        res["oracle_hits"] = hits
+        res["oracle_hits"] = hits + invfail_hits(tf, m["invfails"])
         res["oracle_stats"] = stats
         res["wall_s"] = round(time.time() - t0, 2)
         res["seq_stats"] = seq_stats(tf)
+        json.dump(res, open(jf, "w"))
+        return res
+
+
+BOUNDARY_EXPECT = [
+    "B1 panic CapacityExceeds",
+    "B2 filled={half} cap={half} cap_changed=0 extra_refused=1",
+    "B3 ok grew=1 within=1 len={half1}",
+    "B4 len={max} cap={max} monotone=1 failed_at=-1",
+    "B5 panic CapacityOverflow len_same=1 cap_same=1",
+    "B6 destroyed=1 len_after_destroy={maxm1} refilled=1 len={max} contains_old=0",
+    "B7 len={max} cap={max} monotone=1 failed_at=-1 growths_ge1=1",
+]
+BOUNDARY_WHAT = {
+    "B1": "with_capacity beyond 2^24 must panic", "B2": "with_capacity(n) permits exactly n create_within_capacity without reallocation",
+    "B3": "create below the limit succeeds and grows strictly within the limit", "B4": "create always succeeds below 16,777,216 entities; capacity monotone and >= len",
+    "B5": "create at the limit panics without changing len/capacity", "B6": "a position freed at the limit is reusable",
+    "B7": "growth from the empty world reaches the limit",
+}
+
+
+def run_boundary(cfgname):
+    """C12/C10: the real 2^24 boundary on the implementation alone, compared with the closed-form
+    predictions of the C12 theorems (C12_with_capacity, C12_within_capacity_iff,
+    C12_create_succeeds_below_limit, C12_create_at_limit_panics_cleanly, C12_refill_after_any_history)."""
+    jf = os.path.join(tdir(), f"boundary-{cfgname}.json")
+    with Lock("boundary-" + cfgname):
+        if os.path.exists(jf):
+            return json.load(open(jf))
+        b = build_rt(cfgname)
+        res = {"key": "boundary-" + cfgname, "config": cfgname, "profile": "boundary", "mismatches": [], "invfails": [],
+               "summary": None, "oracle_hits": [], "harness_ok": b["ok"], "lines": []}
+        if not b["ok"]:
+            res["crashed"] = "harness does not build"
+        else:
+            t0 = time.time()
+            p = subprocess.run([b["bin"], "boundary"], stdout=subprocess.PIPE, stderr=subprocess.PIPE, text=True, env=ENV, timeout=1800)
+            mx = 1 << 24
+            exp = [e.format(max=mx, maxm1=mx - 1, half=mx // 2, half1=mx // 2 + 1) for e in BOUNDARY_EXPECT]
+            got = p.stdout.splitlines()
+            res["lines"] = got
+            if p.returncode != 0:
+                res["crashed"] = f"boundary run exited with {p.returncode}: {p.stderr[-300:]}"
+            for e in exp:
+                tag = e.split()[0]
+                g = next((x for x in got if x.startswith(tag + " ")), None)
+                if g != e and not res.get("crashed"):
+                    res["oracle_hits"].append({"property": "C12", "seq": "boundary", "line": 0, "op": "rt boundary", "class": "boundary-" + tag,
+                                               "what": f"{BOUNDARY_WHAT[tag]}: expected `{e}`, observed `{g}`", "no_shrink": True})
+            res["wall_s"] = round(time.time() - t0, 2)
         json.dump(res, open(jf, "w"))
         return res
 
@@ -363,7 +446,7 @@ def is_known(hit, cfgname):
 def seq_ops(trace_path, seq_header):
     ops = []
     on = False
-    for line in open(trace_path):
+    for line in open(trace_path, errors="replace"):
         line = line.rstrip("\n")
         if line.startswith("seq "):
             on = (line == seq_header)
@@ -383,6 +466,7 @@ def run_ops(cfgname, ops, workdir):
         p = subprocess.run([b["bin"], "run", f], stdout=fh, stderr=subprocess.PIPE, text=True, env=ENV)
     m = run_model(tf)
     hits, _ = oracles.run_oracles(tf)
+    hits = hits + invfail_hits(tf, m["invfails"])
     return {"rc": p.returncode, "stderr": p.stderr[-500:], "model": m, "hits": hits, "trace": tf}
 
 
@@ -408,7 +492,7 @@ def shrink(cfgname, ops, pred, budget_s=60):
                 break
             n = min(n * 2, len(body))
     final = run_ops(cfgname, head + body, work)
-    trace_text = open(final["trace"]).read()
+    trace_text = open(final["trace"], errors="replace").read()
     shutil.rmtree(work, ignore_errors=True)
     return head + body, final, trace_text
 
@@ -436,7 +520,7 @@ def replay(path):
         work = os.path.join(tdir(), "replay-%d" % os.getpid())
         os.makedirs(work, exist_ok=True)
         r = run_ops(data["config"], data["ops"], work)
-        print(open(r["trace"]).read())
+        print(open(r["trace"], errors="replace").read())
         for m in r["model"]["mismatches"] + r["model"]["invfails"]:
             print(m)
         bad = [h for h in r["hits"] if h["property"] == prop]
@@ -499,7 +583,7 @@ def concerns(prop, spec, line):
         return True
     if p["obs_differs"] and k in spec["ops"]:
         return True
-    if p["summary_differs"] and spec["summary"]:
+    if p["summary_differs"] and spec["summary"] and k in spec["ops"]:
         return True
     if k not in set().union(*[s["ops"] for s in RT_PROPS.values() if s["ops"]]):
         return True  # unclassified op kind: charged to everyone
@@ -525,6 +609,8 @@ def check_rt(prop, tier, seed):
     for c in cfgs:
         for pr in profiles:
             streams.append(run_stream(c, pr, seed, t["nseq"], t["maxops"]))
+    if prop == "C12":
+        streams.append(run_boundary("rel-ew3"))
     return decide(prop, tier, seed, lean, streams, lambda line: concerns(prop, spec, line))
 
 
@@ -550,7 +636,16 @@ def decide(prop, tier, seed, lean, streams, concerns_fn, extra_cov=None, t0=None
     for s in streams:
         if s.get("crashed"):
             broken_tie.append(("crash", s, s["crashed"]))
-        for line in s.get("mismatches", []) + s.get("invfails", []):
+        # only the FIRST disagreement of a sequence is a root cause (model and implementation are in
+        # different states afterwards, later lines are consequences)
+        firsts, seen_seq = [], set()
+        for line in sorted(s.get("mismatches", []) + s.get("invfails", []), key=lambda l: int((re.search(r" line=(\d+)", l) or [0, 0])[1])):
+            mm = re.match(r"(MISMATCH|INVFAIL) seq=(\S+)", line)
+            sq = mm.group(2) if mm else "?"
+            if sq not in seen_seq:
+                seen_seq.add(sq)
+                firsts.append(line)
+        for line in firsts:
             if concerns_fn(line):
                 broken_tie.append(("mismatch", s, line))
                 break
@@ -563,7 +658,14 @@ def decide(prop, tier, seed, lean, streams, concerns_fn, extra_cov=None, t0=None
         print(l)
     rc = 0
     replay_path = None
-    if violations:
+    if violations and violations[0][2].get("no_shrink"):
+        kind, s, h = violations[0]
+        replay_path = write_replay(prop, "oracle-" + h["class"], {
+            "property": prop, "kind": "boundary", "config": s["config"], "what": h["what"], "class": h["class"],
+            "how": "harness/rt `rt boundary` on the release build, compared with the closed forms of the C12 theorems", "observed": s.get("lines")})
+        print(f"VIOLATION property={prop} replay={replay_path}")
+        rc = 1
+    elif violations:
         kind, s, h = violations[0]
         ops = seq_ops(s["trace"], h["seq"])
         cfg = s["config"]
@@ -676,6 +778,23 @@ START = time.time()
 
 
 def check(prop, tier, seed):
+    try:
+        return check_inner(prop, tier, seed)
+    except Exception:  # noqa: the machinery itself failed: the property is not shown to hold
+        import traceback
+        tb = traceback.format_exc()
+        path = write_replay(prop, "unproved", {"property": prop, "kind": "machinery-error", "traceback": tb[-4000:],
+                                               "note": "the check could not be completed on this tree; the property is no longer shown to hold"})
+        print(f"VIOLATION property={prop} replay={path} no-failing-input-found")
+        try:
+            lean = {"obligations": 1, "discharged": 0, "checker_cmd": "n/a", "axioms": {}, "broken": ["machinery error"], "names": []}
+            write_evidence(prop, tier, seed, lean, [], 1, [], {"machinery_error": tb[-1500:]}, START)
+        except Exception:  # noqa
+            pass
+        return 1
+
+
+def check_inner(prop, tier, seed):
     global START
     START = time.time()
     os.makedirs(CACHE, exist_ok=True)
